@@ -93,7 +93,7 @@ func main() {
 				continue
 			}
 			match := len(args) == 1
-			for _, a := range args[1:2] {
+			for _, a := range args[1:minInt(2, len(args))] {
 				if strings.Contains(n, a) {
 					match = true
 				}
@@ -115,7 +115,7 @@ func main() {
 		}
 		for _, d := range w.lemmas() {
 			match := len(args) == 1
-			for _, a := range args[1:2] {
+			for _, a := range args[1:minInt(2, len(args))] {
 				if strings.Contains(d.Name, a) {
 					match = true
 				}
@@ -178,4 +178,11 @@ func main() {
 	default:
 		usage()
 	}
+}
+
+func minInt(a, b int) int {
+	if a < b {
+		return a
+	}
+	return b
 }
